@@ -19,7 +19,9 @@ Orders(S) == IF Cardinality(S) <= 3 THEN Perms(S)
              ELSE LET one == SetToSeq(S) IN {one, Reverse(one)}
 Ups1 == PP(38, F("k", 1), F("v", 2))
 Ups2 == PP(38, F("k", 1), F("w~", 5))
-WithUps(ps) == {ps, <<Ups1>> \o ps, ps \o <<Ups1, Ups2>>, <<Ups1>> \o ps \o <<Ups2, Ups1>>}
+Ups3 == PP(38, F("j", 1), F("x", 1))
+\* (the last form repeats a key with another key in between: the order the server wrote is the order exposed)
+WithUps(ps) == {ps, <<Ups1>> \o ps, ps \o <<Ups1, Ups2>>, <<Ups1>> \o ps \o <<Ups2, Ups1>>, <<Ups1, Ups3>> \o ps \o <<Ups2, Ups3, Ups1>>}
 
 U32s == {<<0, 0, 0, 0>>, <<0, 0, 0, 1>>, <<255, 255, 255, 255>>, <<0, 1, 0, 0>>, <<0, 1, 0, 1>>, <<1, 0, 0, 1>>, <<127, 255, 255, 255>>, <<222, 173, 190, 239>>}
 SLens == {0, 1, 127, 128, 16383, 16384, 65535}
